@@ -26,7 +26,7 @@ type Runner struct {
 }
 
 func NewRunner(goit, base string, t *Tables) *Runner {
-	r := &Runner{Goit: goit, Base: base, Root: filepath.Join(base, "root"), Home: filepath.Join(base, "home"), T: t, Timeout: 10 * time.Second}
+	r := &Runner{Goit: goit, Base: base, Root: filepath.Join(base, "root"), Home: filepath.Join(base, "home"), T: t, Timeout: 30 * time.Second}
 	os.MkdirAll(r.Root, 0o777)
 	os.MkdirAll(r.Home, 0o777)
 	return r
